@@ -509,6 +509,13 @@ def conc_handwritten(cls, ctx, rng, variant):
         a = PL.AddPlayerAction(uuid='12345678-9abc-def0-1234-56789abcdef0', name='n', gamemode=1, ping=2, display_name='d' if variant else None,
                                properties=[PL.PlayerProperty(name='a', value='b', signature='s' if variant else None)])
         b = PL.RemovePlayerAction(uuid='12345678-9abc-def0-1234-56789abcdef0')
+        if variant == 2:      # present-but-empty optional strings
+            e = PL.AddPlayerAction(uuid='12345678-9abc-def0-1234-56789abcdef0', name='', gamemode=0, ping=0, display_name='',
+                                   properties=[PL.PlayerProperty(name='', value='', signature='')])
+            return dict(action_type=PL.AddPlayerAction, actions=[e])
+        if variant == 3:
+            return dict(action_type=PL.UpdateDisplayNameAction,
+                        actions=[PL.UpdateDisplayNameAction(uuid='12345678-9abc-def0-1234-56789abcdef0', display_name='')])
         v = dict(action_type=PL.AddPlayerAction if variant else PL.RemovePlayerAction, actions=[a, a] if variant else [b])
     elif cls is SpawnObjectPacket:
         v = dict(entity_id=9, type_id=70, pitch=360 * 3 / 256, yaw=0.0, data=5 if variant else 0)
@@ -537,7 +544,8 @@ def replay_roundtrip(cls, i, label, rng=None):
     ctx = real_context(i)
     variant = 1 if label.endswith('1') else 0
     results = []
-    for var in ((variant,) if rng is not None or label.startswith('v') else (0, 1)):
+    for var in ((variant,) if rng is not None or label.startswith('v') else
+                (0, 1, 2, 3) if cls.__name__ == 'PlayerListItemPacket' else (0, 1)):
         pkt = cls(ctx)
         if cls in HANDWRITTEN:
             vals = conc_handwritten(cls, ctx, rng, var)
